@@ -135,7 +135,32 @@ def suite_intgrid(ctx, case):
     ctx.corr('intgrid', case, ctx.drv.ask(line(case, grids['float64'])), fl(np.array(make(case).calculate(grids['domain']), dtype=float)), rtol=1e-12,
              atols=[1e-12 * (abs(x) + 1) for x in ref], what=case['pot'] + '.calculate on Domain(dr=%r).r' % dr)
 
-SUITES = {'eval': suite_eval, 'sigma': suite_sigma, 'intgrid': suite_intgrid}
+def suite_objhistory(ctx, case):
+    """ONE potential object evaluated repeatedly while its sigma (and for LJ its cut) is re-assigned between calls and the
+    distances are given in arbitrary order: every call must return the documented u(r) for the attributes as they are NOW"""
+    U = make(case)
+    cur = dict(case, p=dict(case['p']))
+    rs = np.random.RandomState(case['rseed'])
+    for step, sig in enumerate(case['sigmas']):
+        if sig is not None:
+            U.sigma = sig; cur['p']['sigma'] = sig
+        r = np.array(case['r'], dtype=float).copy()
+        if case['order'][step] == 'shuffled': rs.shuffle(r)
+        elif case['order'][step] == 'descending': r = r[::-1].copy()
+        with np.errstate(all='ignore'):
+            out = np.array(U.calculate(r), dtype=float)
+        ref = np.array([documented(cur, float(x)) for x in r])
+        pp = cur['p']; e_ = abs(pp.get('eps', 0.0)); s_ = pp['sigma']
+        rc_ = pp.get('rcut') if cur['pot'] != 'wca' else s_ * 2 ** (1.0 / 6.0)
+        mag = lambda x: 4 * e_ * ((s_ / x) ** 12 + (s_ / x) ** 6)
+        at = np.array([1e-11 * (mag(float(x)) + (mag(rc_) if rc_ else 0.0)) for x in r])
+        ok = bool(np.all((out == ref) | (np.abs(out - ref) <= 1e-11 * np.maximum(np.abs(ref), np.abs(out)) + at)))
+        sub = dict(case, sigmas=case['sigmas'][:step + 1])
+        ctx.pred('objhistory', sub, ok, '%s: evaluation #%d of one object (sigma now %r, distances %s) is not the documented u(r)' % (case['pot'], step, cur['p']['sigma'], case['order'][step]),
+                 key='C10:documented-u')
+        ctx.corr('objhistory', sub, ctx.drv.ask(line(cur, r)), fl(out), rtol=1e-12, atols=list(at), what='%s.calculate, evaluation #%d of one object' % (case['pot'], step))
+
+SUITES = {'eval': suite_eval, 'sigma': suite_sigma, 'intgrid': suite_intgrid, 'objhistory': suite_objhistory}
 
 def gen_eval(rng, maxL):
     L = rng.choice([2, 4, 8, 16, rng.randint(1, maxL)])
@@ -171,6 +196,14 @@ def generate(ctx):
         if 'rcut' in c['p']: c['p']['rcut'] = c['p']['sigma'] * rng.choice([1.5, 2.0, 2.5])
         case = {'pot': c['pot'], 'p': c['p'], 'L': L, 'dr': dr}
         ctx.case('intgrid', case, True, tags=['intgrid:' + c['pot']]); suite_intgrid(ctx, case)
+    for _ in range(ctx.n(150, 1500)):
+        c = gen_eval(rng, 16)
+        k = rng.randint(2, 4)
+        s0 = c['p']['sigma']
+        c['sigmas'] = [None] + [float('%.6g' % (s0 * rng.choice([0.6, 0.8, 1.25, 1.5, 1.0]))) for _ in range(k - 1)]
+        c['order'] = [rng.choice(['ascending', 'ascending', 'shuffled', 'descending']) for _ in range(k)]
+        c['rseed'] = rng.randrange(10 ** 6)
+        ctx.case('objhistory', c, True, tags=['objhistory:' + c['pot']]); suite_objhistory(ctx, c)
     # sigma defaulting and contact classification: sigma = every multiple of dr for several spacings
     for dr in ([0.1, 0.05, 0.25, 0.2] if ctx.quick() else [0.1, 0.05, 0.025, 0.25, 0.2, 0.125, 0.01, 0.3]):
         L = ctx.n(32, 128)
